@@ -4,7 +4,6 @@ CONSTANTS
   K = 2
   Rounds = {0,1,2,3,4}
   Vals = {1,2}
-  MaxPos = 5
   MutInCursor = FALSE
   Depth = 0
   CoverOneIn = 1
